@@ -119,11 +119,13 @@ def build_event(rng):
     amt = Fraction(rng.randint(1, 3000), 100)
     extra = Fraction(rng.randint(0, 50), 100) if rng.random() < 0.4 else ZERO
     extra = min(extra, amt)
+    # the quoted quantity is informational: far above, around and below any holding the base ledger can have
+    evq = rng.choice(["1", "1", "1000000", "250", "0.001", "37.5"])
     if kind == "CAPRETURN":
-        ev = {"date": iso(s), "ticker": tk, "kind": kind, "amount": "1", "total": [dstr(amt), "GBP"],
+        ev = {"date": iso(s), "ticker": tk, "kind": kind, "amount": evq, "total": [dstr(amt), "GBP"],
               "fees": [dstr(extra), "GBP"], "_ev": True}
     else:
-        ev = {"date": iso(s), "ticker": tk, "kind": kind, "amount": "1", "total": [dstr(amt), "GBP"],
+        ev = {"date": iso(s), "ticker": tk, "kind": kind, "amount": evq, "total": [dstr(amt), "GBP"],
               "tax": [dstr(extra), "GBP"], "_ev": True}
     return sorted(base + [ev], key=lambda t: t["date"])
 
@@ -295,9 +297,9 @@ def build_cancel(rng):
         return None
     amt = Fraction(rng.randint(1, 3000), 100)
     fee = Fraction(rng.randint(0, 200), 100)
-    pair = [{"date": iso(s), "ticker": tk, "kind": "ACCUMULATION", "amount": "1", "total": [dstr(amt), "GBP"],
+    pair = [{"date": iso(s), "ticker": tk, "kind": "ACCUMULATION", "amount": rng.choice(["1", "1", "1000000", "0.001"]), "total": [dstr(amt), "GBP"],
              "tax": ["0", "GBP"], "_ev": True},
-            {"date": iso(s), "ticker": tk, "kind": "CAPRETURN", "amount": "1", "total": [dstr(amt + fee), "GBP"],
+            {"date": iso(s), "ticker": tk, "kind": "CAPRETURN", "amount": rng.choice(["1", "1", "250", "1000000"]), "total": [dstr(amt + fee), "GBP"],
              "fees": [dstr(fee), "GBP"], "_ev": True}]
     if rng.random() < 0.5:
         pair.reverse()
@@ -446,7 +448,7 @@ def build_oversize(rng):
     if net <= 0:
         return None
     fee = Fraction(rng.randint(0, 100), 100) if rng.random() < 0.3 else ZERO
-    ev = {"date": iso(s), "ticker": tk, "kind": "CAPRETURN", "amount": dstr(Fraction(int(q * 1000) + 1, 1000)),
+    ev = {"date": iso(s), "ticker": tk, "kind": "CAPRETURN", "amount": dstr(Fraction(int(q * 1000) + 1, 1000) * rng.choice([1, 1, 2, 100])),
           "total": [dstr(net + fee), "GBP"], "fees": [dstr(fee), "GBP"], "_ev": True}
     return base + [ev]
 
